@@ -12,7 +12,7 @@ from mc.props.c03 import PAL
 ID = 'C11'
 ENGINE = 'E1 full product, differential against the inline write of the pre-sliced arrays'
 RULE = ("full product of frame configuration (1..3 channels, scalar and 2-D, mixed dtypes, with and without index "
-        "type) x rows x source kind {inline, dict, structured array, HDF5 with nested groups and bare/leading-slash "
+        "type; plus two frames with equally named channels in one or two CHANNEL sets) x rows x source kind {inline, dict, structured array, HDF5 with nested groups and bare/leading-slash "
         "names} x dataset-name mapping {identity, renamed} x source field order {as frame, reversed} x extra unused "
         "datasets x byte order of the source arrays x all windows 0<=from<to<=R plus open-ended x input chunk {None,1,2,R}; oracle: byte-identical to the "
         "inline write of the pre-sliced arrays and rows decode to exactly [from,to); non-trivial = both files written "
@@ -31,7 +31,7 @@ SRC = ['inline', 'dict', 'struct', 'h5']
 
 def shards(tier):
     rows = [1, 3, 4] if tier == 'quick' else [1, 2, 3, 4, 5]
-    return [{'frame': f, 'rows': r, 'src': s} for f in FRAMES for r in rows for s in SRC]
+    return [{'frame': f, 'rows': r, 'src': s} for f in list(FRAMES) + ['S2'] for r in rows for s in SRC]
 
 
 def bounds(tier):
@@ -43,6 +43,15 @@ def cases(shard, tier):
     wins = [(f, t) for f in range(R_) for t in range(f + 1, R_ + 1)] + [(f, None) for f in range(R_)]
     chunks = sorted({None, 1, 2, R_}, key=lambda x: (x is not None, x))
     maps = ['identity', 'renamed'] + (['swapped'] if shard['frame'] == 'D' else [])
+    if shard['frame'] == 'S2':
+        # two frames with equally named channels, the second frame's channels in a CHANNEL set of their own: the data
+        # sets are told apart by the documented NAME, NAME__1 rule across the whole logical file
+        for (f, t), chunk, perm, bo, sets in itertools.product(wins, chunks, ['same', 'reversed'], ['<', '>'],
+                                                               ['one', 'per-frame']):
+            if shard['src'] == 'inline' and perm != 'same':
+                continue
+            yield dict(shard, frm=f, to=t, chunk=chunk, mapping='identity', perm=perm, extra=False, bo=bo, sets=sets)
+        return
     for (f, t), chunk, mapping, perm, extra, bo in itertools.product(wins, chunks, maps,
                                                                      ['same', 'reversed'], [False, True, 'trailing'], ['<', '>']):
         if shard['src'] == 'inline' and (mapping != 'identity' or perm != 'same' or extra):
@@ -66,7 +75,50 @@ def _pats(frame, rows):
     return out
 
 
+def make_spec_s2(c, reference):
+    rows, frm, to = c['rows'], c['frm'], c['to']
+    hi = rows if to is None else to
+    ops = [S.op_lf(), S.op_origin()]
+    data = []
+    for k in (0, 1):
+        sn = {'set_name': 'TOOL-B'} if (k == 1 and c.get('sets') == 'per-frame') else {}
+        refs = []
+        for j, (name, dt) in enumerate((('DEPTH', 'float64'), ('RPM', 'uint16'))):
+            pat = [0x4000000000000000 + ((8 * k + r) << 46) for r in range(rows)] if dt == 'float64' else \
+                [1000 * (k + 1) + r for r in range(rows)]
+            ds = name if k == 0 else f'{name}__1'
+            hh = f'C{k}{j}'
+            if reference:
+                ops.append(S.op_add('channel', hh, name, data=S.arr_spec(dt, [hi - frm], pat[frm:hi]), **sn))
+            else:
+                arr = S.arr_spec(dt, [rows], pat, bo=c.get('bo', '<'))
+                ops.append(S.op_add('channel', hh, name, **dict(sn, **({'data': arr} if c['src'] == 'inline' else {}))))
+                data.append((ds, arr))
+            refs.append({'$ref': hh})
+        ops.append(S.op_add('frame', f'F{k}', f'FRAME{k + 1}', channels=refs, index_type='BOREHOLE-DEPTH'))
+    sp = {'sul': {'max_record_length': 8192}, 'ops': ops, 'write': {}}
+    if reference:
+        return sp
+    if c['chunk'] is not None:
+        sp['write']['input_chunk_size'] = c['chunk']
+    if frm:
+        sp['write']['from_idx'] = frm
+    if to is not None:
+        sp['write']['to_idx'] = to
+    if c['perm'] == 'reversed':
+        data = data[::-1]
+    if c['src'] == 'dict':
+        sp['write']['data'] = {'$datadict': dict(data)}
+    elif c['src'] == 'struct':
+        sp['write']['data'] = {'$struct': {'fields': [[k, v] for k, v in data]}}
+    elif c['src'] == 'h5':
+        sp['write']['data'] = {'$h5': {('/' + k): v for k, v in data}}
+    return sp
+
+
 def make_spec(c, reference=False):
+    if c['frame'] == 'S2':
+        return make_spec_s2(c, reference)
     rows = c['rows']
     frm, to = c['frm'], c['to']
     ops = [S.op_lf(), S.op_origin()]
@@ -158,7 +210,7 @@ def run_case(c):
     viol = []
     sp = make_spec(c)
     res = _write_after_full(sp) if c.get('earlier') else S.run_spec(sp)
-    refkey = json.dumps({'frame': c['frame'], 'rows': c['rows'], 'frm': c['frm'], 'to': c['to'],
+    refkey = json.dumps({'frame': c['frame'], 'rows': c['rows'], 'frm': c['frm'], 'to': c['to'], 'sets': c.get('sets'),
                          'mapping': 'swapped' if c['mapping'] == 'swapped' else 'plain'}, sort_keys=True)
     ref, refst = _reference(refkey)
     # the struct spelling of the model needs dataset names without renaming prefix handled by resolve_data
